@@ -398,6 +398,17 @@ func (w *cllWalk) do(label string) {
 			w.lateRelease = true
 		}
 		s.release(rev)
+	case label == "rollback":
+		// the user reverts the pod template to the stable revision; the CloneSet controller observes it at once (the pods of the
+		// abandoned revision stay: partition 100 %) — Lean: RV.ClosedLoop.rollbackWl
+		w.del = false
+		w.fwd = false
+		w.supNow = false
+		if pre.Ro != nil && ((pre.Ro.Phase == "Progressing" && (pre.Ro.Reason == "finalising" || pre.Ro.Reason == "cancelling")) ||
+			pre.Ro.Phase == "Terminating" || pre.Ro.Phase == "Disabling") {
+			w.lateRelease = true
+		}
+		s.rollback()
 	case label == "approve":
 		s.approve()
 	case label == "tick":
@@ -697,6 +708,18 @@ func runClosedLoop(c *Ctx) {
 			w := cllSupersede(c, sc, false)
 			w.trace()
 			w = cllSupersede(c, sc, true)
+			w.trace()
+		}
+	}
+	// deterministic part of the traffic walks (slice cltraffic): rollback / supersession / deletion while a weight is live, an
+	// API fault after the first write of the reconcile that reacts to it, a crash between the Service writes and the route write
+	for _, sc := range trScens {
+		if !(sc.Name == "pct-traffic" || sc.Name == "tr-disablegen" ||
+			(c.Thorough() && (sc.Name == "tr-weight-plain-weight" || sc.Name == "roundup-full-step" || sc.Name == "mixed-traffic-then-plain"))) {
+			continue
+		}
+		for _, combo := range cllTrCombos {
+			w := cllTrafficEvent(c, sc, combo[0], combo[1], 0)
 			w.trace()
 		}
 	}
